@@ -203,6 +203,41 @@ func gen(r *vh.Rand, tier string, n int, emit func(vh.Case)) {
 			emit(c)
 			continue
 		}
+		if r.Chance(1, 7) {
+			// many links over a tiny name alphabet: lots of equal names, every link distinguishable by
+			// its Tsize (= insertion index) and CID, so the order among equal names is observable; more
+			// than 12 links in unsorted insertion order (library sorts switch algorithm above 12)
+			c.Ops = append(c.Ops, "new "+dataTok(r))
+			alpha := [][]string{{"", "a"}, {"a", "b"}, {"b", "a", ""}, {"ab", "a", "b", ""}, {"x"}}[r.Intn(5)]
+			nl := 13 + r.Intn(28)
+			mk := func(i int, sep string) string {
+				return vh.Hex([]byte(vh.Pick(r, alpha))) + sep + vh.Hex(vh.Pick(r, cids).Bytes()) + sep + strconv.Itoa(i)
+			}
+			if r.Bool() {
+				for i := 0; i < nl; i++ {
+					c.Ops = append(c.Ops, "addlink "+mk(i, " "))
+					if r.Chance(1, 12) {
+						c.Ops = append(c.Ops, vh.Pick(r, []string{"links", "rawdata", "cid", "copy", "reload"}))
+					}
+				}
+			} else {
+				ls := make([]string, nl)
+				for i := range ls {
+					ls[i] = mk(i, ":")
+				}
+				c.Ops = append(c.Ops, "setlinks "+strings.Join(ls, " "))
+			}
+			c.Ops = append(c.Ops, "links", "cid", "rawdata")
+			for i, k := 0, r.Intn(4); i < k; i++ {
+				c.Ops = append(c.Ops, "addlink "+mk(100+i, " "))
+			}
+			if r.Bool() {
+				c.Ops = append(c.Ops, "rmlink "+vh.Hex([]byte(vh.Pick(r, alpha))))
+			}
+			c.Ops = append(c.Ops, vh.Pick(r, []string{"copy", "reload", "links", "marshal"}), "cid", "rawdata", "links")
+			emit(c)
+			continue
+		}
 		c.Ops = append(c.Ops, "new "+dataTok(r))
 		m := 2 + r.Intn(20)
 		if tier == "thorough" {
@@ -566,6 +601,9 @@ func exec(c vh.Case, o *vh.Out) {
 			cidReads++
 			if len(s.links) > maxLinks {
 				maxLinks = len(s.links)
+			}
+			if len(s.links) >= 13 {
+				o.Kind("links>=13")
 			}
 			if v, ok := s.table[cc.KeyString()]; ok {
 				o.Emit("k=%s enc=%s", v[0], v[1])
